@@ -10,6 +10,26 @@ use crate::rng::Rng;
 use crate::vals::*;
 use rrtk::*;
 
+struct KGet(f32);
+impl Getter<f32, E> for KGet {
+    fn get(&self) -> Output<f32, E> {
+        Ok(Some(Datum::new(Time(0), self.0)))
+    }
+}
+impl Updatable<E> for KGet {
+    fn update(&mut self) -> NothingOrError<E> {
+        Ok(())
+    }
+}
+
+/// Grid for the power function: bases x exponents (whole exponents small and large, of both signs,
+/// fractional ones, results that are subnormal, an exponent beyond i32).
+pub const POW_BASES: [f32; 13] = [0.5, 0.97, 1.000001, 1.5, 2.0, 3.0, 10.0, 1e20, 1e-20, 0.25, 7.0, -2.0, -1.5];
+pub const POW_EXPS: [f32; 28] = [
+    0.0, 1.0, -1.0, 2.0, -2.0, 3.0, 4.0, 5.0, 8.0, 16.0, 17.0, 31.0, 33.0, 64.0, 100.0, -100.0, 1000.0, -1000.0, 0.5, -0.5, 1.5, 2.5,
+    1e6, 0.333_333_34, 10.0, -10.0, 2147483648.0, 2147483649.0,
+];
+
 fn q(bits: i64, m: i64, s: i64) -> Quantity {
     Quantity::new(f32::from_bits(bits as u32), Unit::new(m as i8, s as i8))
 }
@@ -138,6 +158,19 @@ pub fn execute(plan: &Plan, ctx: &mut Ctx) {
                     };
                     format!("{}", r)
                 }
+                // POW base exponent : the power function as the public API exposes it (ExponentStream
+                // over two constant inputs); compared across float back ends to a few ulps
+                "POW" => {
+                    let st = streams::math::ExponentStream::<KGet, KGet, E>::new(
+                        rc_ref_cell_reference(KGet(op.f(0))),
+                        rc_ref_cell_reference(KGet(op.f(1))),
+                    );
+                    match st.get() {
+                        Ok(Some(d)) => hx(d.value),
+                        Ok(None) => "none".into(),
+                        Err(_) => "err".into(),
+                    }
+                }
                 // ST p v a : load a state
                 "ST" => {
                     state = State::new_raw(op.f(0), op.f(1), op.f(2));
@@ -256,8 +289,30 @@ pub fn generate(prop: &str, tier: Tier, rng: &mut Rng, seed: u64, run: u64) -> P
             return plan;
         }
     }
+    // ... and the next 6 enumerate the power-function grid (13 x 28 = 364 evaluations)
+    if !ill && (40..46).contains(&chunk) {
+        let total = (POW_BASES.len() * POW_EXPS.len()) as u64;
+        for k in (chunk - 40) * 70..((chunk - 40) * 70 + 70).min(total) {
+            plan.push("POW", &[fb(POW_BASES[(k / POW_EXPS.len() as u64) as usize]), fb(POW_EXPS[(k % POW_EXPS.len() as u64) as usize])]);
+        }
+        if !plan.ops.is_empty() {
+            return plan;
+        }
+    }
     let n = rng.range(4, if tier == Tier::Quick { 16 } else { 32 });
     for _ in 0..n {
+        if !ill && rng.chance(0.08) {
+            // power function: whole-number exponents of any size are the interesting ones
+            let b = if rng.chance(0.5) { *rng.pick(&POW_BASES) } else { rng.mag_f32(1e-3, 1e3) };
+            let e = match rng.below(4) {
+                0 => *rng.pick(&POW_EXPS),
+                1 => rng.range(-40, 40) as f32,
+                2 => rng.range(-2000, 2000) as f32,
+                _ => rng.moderate_f32(),
+            };
+            plan.push("POW", &[fb(b), fb(e)]);
+            continue;
+        }
         if !ill && rng.chance(0.15) {
             // integer operators: small, negative, odd values; powers of two as divisors
             let v = |rng: &mut Rng| -> i64 {
